@@ -277,21 +277,22 @@ func filterWrite(t *ref.Type, v ref.V, n *node, m fmode) ref.V {
 	return v
 }
 
-// fresh is what a field of a newly constructed object shows before anything
-// is stored into it (nil = unset).
-func fresh(f *ref.FieldT) ref.V {
-	switch {
-	case f.HasDef:
-		return f.Default
-	case f.Req == idl.ReqOptional || f.Type.Kind == ref.Struct:
-		return nil
+// baselines holds, per struct-like, the dump of a newly constructed object
+// (driver op `new`): what a field shows before anything is stored into it.
+// Reading "stores exactly the selected part": everything else stays as the
+// constructor left it (whether constructors honour the IDL is C06's business).
+type baselines map[string]*ref.StructV
+
+func (b baselines) fresh(st *ref.StructT, f *ref.FieldT) ref.V {
+	if o := b[st.Name]; o != nil {
+		return o.F[f.ID]
 	}
-	return ref.Zero(f.Type)
+	return nil
 }
 
 // filterRead is the object a reader under the mask node n must hold after
 // reading the complete encoding of v.
-func filterRead(t *ref.Type, v ref.V, n *node, m fmode) ref.V {
+func filterRead(t *ref.Type, v ref.V, n *node, m fmode, base baselines) ref.V {
 	if v == nil {
 		return nil
 	}
@@ -308,11 +309,11 @@ func filterRead(t *ref.Type, v ref.V, n *node, m fmode) ref.V {
 					sel, c = n.child(fkey(f.ID), m.black)
 				}
 				if sel {
-					out.F[f.ID] = filterRead(f.Type, fv, c, m)
+					out.F[f.ID] = filterRead(f.Type, fv, c, m, base)
 					continue
 				}
 			}
-			if b := fresh(f); b != nil {
+			if b := base.fresh(t.Struct, f); b != nil {
 				out.F[f.ID] = b
 			}
 		}
@@ -326,7 +327,7 @@ func filterRead(t *ref.Type, v ref.V, n *node, m fmode) ref.V {
 				sel, c = n.child(ikey(int64(i)), m.black)
 			}
 			if sel {
-				out.E = append(out.E, filterRead(t.Elem, e, c, m))
+				out.E = append(out.E, filterRead(t.Elem, e, c, m, base))
 			}
 		}
 		return out
@@ -340,7 +341,7 @@ func filterRead(t *ref.Type, v ref.V, n *node, m fmode) ref.V {
 			}
 			if sel {
 				out.K = append(out.K, x.K[i])
-				out.E = append(out.E, filterRead(t.Elem, x.E[i], c, m))
+				out.E = append(out.E, filterRead(t.Elem, x.E[i], c, m, base))
 			}
 		}
 		return out
@@ -386,6 +387,75 @@ func canon(t *ref.Type, v ref.V) ref.V {
 		return o
 	}
 	return v
+}
+
+// complete makes a value explicit about every non-optional field, the way the
+// driver builds the object from it: an absent non-optional field holds what
+// the constructor puts there (declared default, else zero).  Values drawn by
+// ref.GenStruct set these fields, but the evaluated default of a struct-typed
+// field names only the fields its literal mentions.  ok is false when a
+// non-optional struct-typed field is absent (a nil pointer: DESIGN §5a keeps
+// that class away from value oracles).
+func complete(t *ref.Type, v ref.V, fuel int) (ref.V, bool) {
+	if v == nil {
+		return nil, true
+	}
+	switch t.Kind {
+	case ref.List, ref.Set:
+		o := &ref.ListV{E: []ref.V{}}
+		for _, x := range v.(*ref.ListV).E {
+			y, ok := complete(t.Elem, x, fuel)
+			if !ok {
+				return nil, false
+			}
+			o.E = append(o.E, y)
+		}
+		return o, true
+	case ref.Map:
+		m := v.(*ref.MapV)
+		o := &ref.MapV{K: []ref.V{}, E: []ref.V{}}
+		for i := range m.K {
+			k, ok := complete(t.Key, m.K[i], fuel)
+			if !ok {
+				return nil, false
+			}
+			x, ok := complete(t.Elem, m.E[i], fuel)
+			if !ok {
+				return nil, false
+			}
+			o.K, o.E = append(o.K, k), append(o.E, x)
+		}
+		return o, true
+	case ref.Struct:
+		if fuel <= 0 {
+			return nil, false
+		}
+		sv := v.(*ref.StructV)
+		o := ref.NewStruct()
+		for _, f := range t.Struct.Fields {
+			fv, has := sv.F[f.ID]
+			if !has || fv == nil {
+				if f.Req == idl.ReqOptional || t.Struct.Kind == "union" {
+					continue
+				}
+				switch {
+				case f.HasDef:
+					fv = f.Default
+				case f.Type.Kind == ref.Struct:
+					return nil, false
+				default:
+					fv = ref.Zero(f.Type)
+				}
+			}
+			y, ok := complete(f.Type, fv, fuel-1)
+			if !ok {
+				return nil, false
+			}
+			o.F[f.ID] = y
+		}
+		return o, true
+	}
+	return v, true
 }
 
 // subValue checks that d occurs inside v: every field / element / entry of d is
